@@ -3279,6 +3279,11 @@ generalized_affine_preimage(const Variable var,
     return;
   }
 
+  // Any preimage of an empty polyhedron is empty.
+  if (marked_empty()) {
+    return;
+  }
+
   // Here `var_coefficient == 0', so that the preimage cannot
   // be easily computed by inverting the affine relation.
   // Shrink the polyhedron by adding the constraint induced
